@@ -190,3 +190,62 @@ def client_boundary_cases():
         "sc 35 new:0 ref:0 rel:0 send:0:c rel:0 new:0 send:0:c send:0:c resp:0 rel:0 resp:0",
         "sc 36 new:0 new:1 new:2 rel:1 send:0:c send:2:c relall adv:1000 prep resp:2 resp:0",
     ]
+
+
+def gen_stream_history(r):
+    """CoAP over TCP server sessions: 'st <seed> <session_timeout_s> <op>*'"""
+    nconn = r.choice([1, 1, 2, 3, 4, 6])
+    timeout = r.choice([1, 2, 5, 300, 300])
+    nops = r.choice([5, 9, 14, 22, 36])
+    T = timeout * 1000
+    advs = [1, 999, 1000, 1999, 2000, 2001, 3000, T - 1, T, T + 1]
+    ops = []
+    opened = set()
+    while len(ops) < nops:
+        i = r.randrange(nconn)
+        x = r.random()
+        if i not in opened:
+            ops += ["conn:%d" % i] + (["csm:%d" % i] if r.random() < 0.9 else [])
+            opened.add(i)
+        elif x < 0.30:
+            ops.append("get:%d:%s" % (i, r.choice("rrhhaa")))
+        elif x < 0.45:
+            ops.append("close:%d" % i)
+            if r.random() < 0.6:
+                ops.append("prep")
+        elif x < 0.52:
+            ops.append("ref:%d" % i)
+        elif x < 0.64:
+            ops.append("rel:%d" % i)
+        elif x < 0.66:
+            ops.append("relall")
+        elif x < 0.82:
+            ops.append("adv:%d" % max(0, r.choice(advs)))
+            ops.append("prep")
+        else:
+            ops.append("prep")
+    explicit = False
+    if r.random() < 0.5:
+        ops = ops[:r.randrange(1, len(ops) + 1)]
+        if r.random() < 0.8:
+            ops.append("relall")
+        ops.append("free")
+        explicit = True
+    return "st %d %d %s" % (r.randrange(1, 1 << 30), timeout, " ".join(ops)), {
+        "conns": nconn, "timeout": timeout, "explicit_free": explicit, "nops": len(ops)}
+
+
+def stream_boundary_cases():
+    return [
+        # the peer closes: an unreferenced session goes at the next scan, whatever the timeout
+        "st 41 300 conn:0 csm:0 get:0:r close:0 prep",
+        # ... a session the handler kept (application reference) stays until it is released
+        "st 42 300 conn:0 csm:0 get:0:h close:0 prep prep adv:1000 prep rel:0 prep",
+        # ... and so does one with an async entry, until the entry has fired
+        "st 43 300 conn:0 csm:0 get:0:a close:0 prep adv:1999 prep adv:1 prep prep",
+        # both at once, two connections, teardown while one is still held
+        "st 44 2 conn:0 csm:0 conn:1 csm:1 get:0:h get:1:a ref:1 close:0 close:1 prep adv:2000 prep rel:1 prep relall free",
+        # closed before the CSM; idle timeout of an open connection
+        "st 45 1 conn:0 close:0 prep conn:1 csm:1 get:1:r adv:999 prep adv:1 prep",
+        "st 46 300 conn:0 csm:0 get:0:h get:0:h close:0 prep rel:0 prep rel:0 prep",
+    ]
